@@ -345,6 +345,76 @@ fn install(g: &[Spec], rng: &mut Rng, shuffle: bool) -> Vec<Entry> {
     table
 }
 
+/// every lexical id a layout names
+fn mentioned(l: &LayoutIr) -> std::collections::BTreeSet<LexicalId> {
+    let mut out = std::collections::BTreeSet::new();
+    match l {
+        LayoutIr::BuiltIn(b) => match b {
+            BuiltInTypeIr::Option(t) | BuiltInTypeIr::Box(t) | BuiltInTypeIr::Vec(t) | BuiltInTypeIr::Set(t)
+            | BuiltInTypeIr::Sender(t) | BuiltInTypeIr::Receiver(t) => { out.insert(*t); }
+            BuiltInTypeIr::Map(m) => { out.insert(m.key()); out.insert(m.value()); }
+            BuiltInTypeIr::Result(r) => { out.insert(r.ok()); out.insert(r.err()); }
+            BuiltInTypeIr::Array(a) => { out.insert(a.elem_type()); }
+            _ => {}
+        },
+        LayoutIr::Struct(s) => { for f in s.fields().values() { out.insert(f.field_type()); } }
+        LayoutIr::Enum(e) => { for v in e.variants().values() { if let Some(t) = v.variant_type() { out.insert(t); } } }
+        LayoutIr::Service(s) => {
+            for f in s.functions().values() { for t in [f.args(), f.ok(), f.err()].into_iter().flatten() { out.insert(t); } }
+            for e in s.events().values() { if let Some(t) = e.event_type() { out.insert(t); } }
+        }
+        LayoutIr::Newtype(n) => { out.insert(n.target_type()); }
+    }
+    out
+}
+
+/// implementation-only oracle: a type reports (through `add_references`) exactly the types its layout names,
+/// so that the closure follows every reference and an `Introspection` record's references resolve
+fn refs_match_layout<T: Introspectable + ?Sized>() -> Result<(), String> {
+    let layout = T::layout();
+    let mut v = Vec::new();
+    T::add_references(&mut References::new(&mut v));
+    let got: std::collections::BTreeSet<LexicalId> = v.iter().map(|d| d.lexical_id()).collect();
+    let want = mentioned(&layout);
+    if got == want { Ok(()) } else { Err(format!("layout names {:?} but add_references reports {:?}", want, got)) }
+}
+
+macro_rules! with_node {
+    ($i:expr, $f:ident, $($wrap:tt)*) => {
+        match $i {
+            0 => $f::<with_node!(@ty 0, $($wrap)*)>(), 1 => $f::<with_node!(@ty 1, $($wrap)*)>(),
+            2 => $f::<with_node!(@ty 2, $($wrap)*)>(), 3 => $f::<with_node!(@ty 3, $($wrap)*)>(),
+            4 => $f::<with_node!(@ty 4, $($wrap)*)>(), 5 => $f::<with_node!(@ty 5, $($wrap)*)>(),
+            6 => $f::<with_node!(@ty 6, $($wrap)*)>(), _ => $f::<with_node!(@ty 7, $($wrap)*)>(),
+        }
+    };
+    (@ty $i:literal, option) => { Option<N<$i>> };
+    (@ty $i:literal, vec) => { Vec<N<$i>> };
+    (@ty $i:literal, boxed) => { Box<N<$i>> };
+    (@ty $i:literal, map) => { HashMap<u32, N<$i>> };
+    (@ty $i:literal, btree) => { BTreeMap<String, N<$i>> };
+    (@ty $i:literal, array) => { [N<$i>; 3] };
+    (@ty $i:literal, res_ok) => { Result<N<$i>, String> };
+    (@ty $i:literal, res_err) => { Result<u32, N<$i>> };
+    (@ty $i:literal, res_both) => { Result<Option<N<$i>>, Vec<N<$i>>> };
+}
+
+/// the standard generic types of aldrin-core over a node type
+fn real_generic_impls(i: usize) -> Vec<(&'static str, Result<(), String>)> {
+    use std::collections::HashMap;
+    vec![
+        ("Option<T>", with_node!(i, refs_match_layout, option)),
+        ("Vec<T>", with_node!(i, refs_match_layout, vec)),
+        ("Box<T>", with_node!(i, refs_match_layout, boxed)),
+        ("HashMap<u32, T>", with_node!(i, refs_match_layout, map)),
+        ("BTreeMap<String, T>", with_node!(i, refs_match_layout, btree)),
+        ("[T; 3]", with_node!(i, refs_match_layout, array)),
+        ("Result<T, String>", with_node!(i, refs_match_layout, res_ok)),
+        ("Result<u32, T>", with_node!(i, refs_match_layout, res_err)),
+        ("Result<Option<T>, Vec<T>>", with_node!(i, refs_match_layout, res_both)),
+    ]
+}
+
 fn compute(root: usize) -> TypeId {
     TypeId::compute_from_dyn(dyn_node(root))
 }
@@ -716,6 +786,13 @@ fn one_case(out: &mut Out, rng: &mut Rng) {
         Err(_) => out.fail("introspection record does not serialize/deserialize", &line),
     }
     out.count("record.roundtrip");
+    // 5. the standard generic impls report exactly what their layouts name
+    for (name, r) in real_generic_impls(root) {
+        if let Err(e) = r {
+            out.fail(&format!("{}: {}", name, e), &line);
+        }
+    }
+    out.count("generic_impls.checked");
 }
 
 fn main() {
